@@ -18,6 +18,8 @@ EXPLANATION = (
     "reset only if every one of its paths performs exactly such writes.  At the server, the ParseError "
     "arm of ClientConnection::read discards the already parsed requests, queues exactly one 400 built "
     "from the error's Display, keeps the connection open and yields nothing from that read. "
+    "The field list is closed over the struct: any further field written on the read side must be reset too; the "
+    "parsers read the buffer only through slices with an explicit upper end, so stale bytes of a rejected request are out of reach. "
     "Decides these clauses; equality with a fresh connection on all continuations follows by argument."
 )
 TRUSTED = ["Vec::clear / Option::take / mem::take reset their receiver"]
